@@ -438,12 +438,13 @@ func VsymC14() {
 // VsymC14Handles: several FileCache handles (as several processes have) on one cache directory: a read
 // through any handle that starts after a write through any handle has returned yields that write's bundle.
 func VsymC14Handles() {
-	if !vr.Symbolic() {
-		vr.SkipNative()
-	}
 	c15Hashes, c15Known = nil, nil
-	fskit.Reset()
-	root := fskit.Root() + "/cache"
+	var root string
+	if vr.Symbolic() {
+		fskit.Reset()
+	}
+	root = fskit.Root() + "/cache"
+	defer fskit.Cleanup()
 	ctx := context.Background()
 	var handles []*FileCache
 	for i := 0; i < 2; i++ {
@@ -452,16 +453,25 @@ func VsymC14Handles() {
 		handles = append(handles, c)
 	}
 	url := "http://example.com/a.crl"
-	var last *c15CRL
+	var last []byte
 	n := vr.Param("ops", 4)
 	for op := 0; op < n; op++ {
 		h := handles[vr.Choice("handle", 2)]
 		if vr.Choice("op", 2) == 0 {
-			b := &c15CRL{der: []byte{'h', 'c', byte('0' + op)}, nextUpdate: 1 << 41}
-			b.list = &x509.RevocationList{Raw: b.der, NextUpdate: time.Unix(1<<41, 0)}
-			c15Known = append(c15Known, b)
-			vr.Assert(h.Set(ctx, url, &corecrl.Bundle{BaseCRL: b.list}) == nil, "storing succeeds")
-			last = b
+			var list *x509.RevocationList
+			var der []byte
+			if vr.Symbolic() {
+				b := &c15CRL{der: []byte{'h', 'c', byte('0' + op)}, nextUpdate: 1 << 41}
+				b.list = &x509.RevocationList{Raw: b.der, NextUpdate: time.Unix(1<<41, 0)}
+				c15Known = append(c15Known, b)
+				list, der = b.list, b.der
+			} else {
+				// natively: real CRLs of equal encoded size (re-issued lists with consecutive numbers)
+				der = c15MintCRL(int64(100+op), time.Now().Add(240*time.Hour))
+				list, _ = x509.ParseRevocationList(der)
+			}
+			vr.Assert(h.Set(ctx, url, &corecrl.Bundle{BaseCRL: list}) == nil, "storing succeeds")
+			last = der
 			continue
 		}
 		c15NowSecs = 1000
@@ -470,7 +480,7 @@ func VsymC14Handles() {
 			vr.Assert(err == corecrl.ErrCacheMiss, "nothing stored yet: a miss")
 			continue
 		}
-		vr.Assert(err == nil && got != nil && string(got.BaseCRL.Raw) == string(last.der), "a read that starts after a write has returned yields that write's bundle, whichever handle wrote and whichever reads")
+		vr.Assert(err == nil && got != nil && string(got.BaseCRL.Raw) == string(last), "a read that starts after a write has returned yields that write's bundle, whichever handle wrote and whichever reads")
 		vr.Reach("read after write through handles")
 	}
 }
